@@ -522,6 +522,23 @@ def constructor_forwarding(ctx, rep, rule):
                 if tgt is None:
                     continue
                 theirs = set(list(tgt.params)[1:] + list(tgt.kwonly))
+                # **kwds handed on must be what was received: nothing popped, deleted or overwritten on the way
+                for k in c.keywords:
+                    if k.arg is None and isinstance(k.value, ast.Name) and k.value.id == getattr(g, 'kwarg', None):
+                        kw = k.value.id
+                        for x in walk_local(g.node):
+                            touched = (isinstance(x, ast.Call) and isinstance(x.func, ast.Attribute)
+                                       and isinstance(x.func.value, ast.Name) and x.func.value.id == kw
+                                       and x.func.attr in ('pop', 'popitem', 'clear', 'update', 'setdefault')) or \
+                                      (isinstance(x, ast.Subscript) and isinstance(x.value, ast.Name) and x.value.id == kw
+                                       and isinstance(x.ctx, (ast.Store, ast.Del)))
+                            if touched:
+                                n += 1
+                                rep.fail(rule, "%s:%d **%s handed on as received" % (g.module.relpath, x.lineno, kw),
+                                         g.qualname, "`%s` changes the keywords before they reach %s"
+                                         % (src(x)[:60], tgt.qualname),
+                                         "a setting given by the caller (forever, critical, required ...) is lost or "
+                                         "altered on its way to the class that uses it")
                 passed = {}
                 for k in c.keywords:
                     if k.arg is not None:
